@@ -51,9 +51,12 @@ RTOL = 1e-10
 ITOL = 1e-6
 CONC = [("molar", Fr(1000)), ("millimolar", Fr(1)), ("micromolar", Fr(1, 1000)), ("mol/m3", Fr(1)), ("mol/cm3", Fr(10 ** 6))]
 TIME = [("second", Fr(1)), ("minute", Fr(60)), ("hour", Fr(3600)), ("millisecond", Fr(1, 1000))]
-LEN = [("metre", Fr(1)), ("decimetre", Fr(1, 10)), ("centimetre", Fr(1, 100)), ("millimetre", Fr(1, 1000))]
-RTIME = [("second", Fr(1)), ("minute", Fr(60)), ("hour", Fr(3600)), ("millisecond", Fr(1, 1000))]
-AMT = [("mole", Fr(1)), ("mmol", Fr(1, 1000)), ("micromole", Fr(1, 10 ** 6))]
+# (the last entry of each list is a *scaled* unit — a number times a unit, as unit_registry_from_human_readable produces —
+# used only by the registries of SCALED_REGS, outside the product lattice of _regs)
+LEN = [("metre", Fr(1)), ("decimetre", Fr(1, 10)), ("centimetre", Fr(1, 100)), ("millimetre", Fr(1, 1000)), ("0.125*metre", Fr(1, 8))]
+RTIME = [("second", Fr(1)), ("minute", Fr(60)), ("hour", Fr(3600)), ("millisecond", Fr(1, 1000)), ("64*second", Fr(64))]
+AMT = [("mole", Fr(1)), ("mmol", Fr(1, 1000)), ("micromole", Fr(1, 10 ** 6)), ("0.25*mole", Fr(1, 4))]
+SCALED_REGS = [(0, 4, 0, 0), (4, 0, 0, 0), (0, 0, 3, 0), (4, 4, 3, 0), (1, 4, 1, 0)]
 MASS = [("kilogram", Fr(1)), ("gram", Fr(1, 1000))]
 WRONG = [(n, s) for n in ("molar", "second", "metre", "kilogram", "ampere", "kelvin", "mole") for s in (1, -1)]
 MODES = ["inline", "named", "unique"]
@@ -80,6 +83,14 @@ SINGLE = [({}, {"B": 1}), ({"A": 1}, {"B": 1}), ({"A": 2}, {"B": 1}), ({"A": 1, 
 EQS = [({"A": 2, "B": 1}, {"C": 1}), ({"A": 2}, {"B": 1}), ({"A": 1, "B": 1}, {"C": 1}), ({"A": 1}, {"B": 1}), ({"A": 1}, {"B": 1, "C": 1}), ({"A": 1}, {"B": 2, "C": 1})]
 
 
+def _unit(name):
+    u = E()["u"]
+    if "*" in name:
+        f, n = name.split("*")
+        return float(f) * getattr(u, n)
+    return getattr(u, name)
+
+
 def _regs(tier):
     q = tier == "quick"
     nl, nt, na, nm = (3, 2, 2, 1) if q else (4, 4, 3, 2)
@@ -96,6 +107,7 @@ def bounds(tier):
         time_units=[t[0] for t in TIME],
         wrong_dimension_variants=["k*%s**%d" % w for w in WRONG] + ["concentration exponent j in -3..3, j != the right one"],
         registries=len(regs),
+        scaled_unit_registries=[[LEN[r[0]][0], RTIME[r[1]][0], AMT[r[2]][0], MASS[r[3]][0]] for r in SCALED_REGS],
         registry_units=dict(length=sorted({LEN[r[0]][0] for r in regs}), time=sorted({RTIME[r[1]][0] for r in regs}),
                             amount=sorted({AMT[r[2]][0] for r in regs}), mass=sorted({MASS[r[3]][0] for r in regs})),
         modes=MODES + ["_create_odesys"],
@@ -112,6 +124,7 @@ def chunks(tier):
     for s in range(len(SHAPES)):
         out.append(("T", s))
         out.append(("RH", s))
+        out.append(("KS", s))
         for lo in range(0, len(regs), step):
             out.append(("K", s, lo, min(len(regs), lo + step)))
     for s in range(len(SHAPES)):
@@ -184,10 +197,10 @@ def _wrong(q, wi):
 def _registry(rc):
     u = E()["u"]
     reg = dict(E()["cu"].SI_base_registry)
-    reg["length"] = getattr(u, LEN[rc[0]][0])
-    reg["time"] = getattr(u, RTIME[rc[1]][0])
-    reg["amount"] = getattr(u, AMT[rc[2]][0])
-    reg["mass"] = getattr(u, MASS[rc[3]][0])
+    reg["length"] = _unit(LEN[rc[0]][0])
+    reg["time"] = _unit(RTIME[rc[1]][0])
+    reg["amount"] = _unit(AMT[rc[2]][0])
+    reg["mass"] = _unit(MASS[rc[3]][0])
     return reg
 
 
@@ -575,8 +588,8 @@ def op_rate(res, shape, rc, mode, ks, ss, reg=None, seq=None, step=None):
             res.outcomes["p_units-inline-empty-ok"] += 1
 
 
-def _layer_K(res, tier, shape, lo, hi):
-    regs = _regs(tier)
+def _layer_K(res, tier, shape, lo, hi, regs=None):
+    regs = _regs(tier) if regs is None else regs
     for rc in regs[lo:hi]:
         for i, t in enumerate(_reg_text(rc)):
             res.symbols["reg:%s" % t] += 1
@@ -707,7 +720,11 @@ def op_integrate(res, shape, rc, mode, ks, outsel, pp=None, seq=None, step=None)
     um_t, _ = A.si(1 * xout.units)
     um_c, _ = A.si(1 * yout.units)
     res.evaluations += 1
-    if not (A.close(um_t, float(exp_t), RTOL) and A.close(um_c, float(exp_c), RTOL)):
+    if not out and tuple(rc) in SCALED_REGS:
+        # a scaled base "unit" (64*second) is a quantity, not a unit: the result is expressed in a unit proper (the value,
+        # checked above, is what counts) — nothing to compare the unit label with
+        res.outcomes["output-units-not-defined|scaled-registry"] += 1
+    elif not (A.close(um_t, float(exp_t), RTOL) and A.close(um_c, float(exp_c), RTOL)):
         res.outcomes["output-units-WRONG"] += 1
         res.violation("C10|integrate|%s|output-not-in-requested-units" % ("output-units" if out else "registry-units"),
                       "%s registry %r out=%r: time unit = %r s, concentration unit = %r mol/m3; expected %r s, %r mol/m3"
@@ -969,6 +986,11 @@ def run_chunk(chunk, tier):
         res.sample(dict(layer="E", equilibria=[repr(e) for e in EQS]))
     elif kind == "K":
         _layer_K(res, tier, *chunk[1:])
+    elif kind == "KS":  # registries whose base units are scaled units (a number times a unit)
+        _layer_K(res, tier, chunk[1], 0, len(SCALED_REGS), regs=SCALED_REGS)
+        for rc in SCALED_REGS[:2]:
+            for mode in MODES:
+                op_integrate(res, chunk[1], rc, mode, (0, 0), None)
     elif kind == "I":
         _layer_I(res, tier, *chunk[1:])
     elif kind == "V":
